@@ -42,6 +42,7 @@ func (m *mergeFields) traverseNode(node resolve.Node) {
 						Name:        n.Fields[i].Name,
 						Value:       n.Fields[i].Value.Copy(),
 						Position:    n.Fields[i].Position,
+						Defer:       n.Fields[i].Defer,
 						OnTypeNames: [][]byte{additionalTypeNames[j]},
 						Info:        n.Fields[i].Info,
 					}
@@ -72,7 +73,7 @@ func (m *mergeFields) traverseNode(node resolve.Node) {
 				if n.Fields[j].OnTypeNames == nil {
 					continue
 				}
-				if bytes.Equal(n.Fields[i].Name, n.Fields[j].Name) {
+				if bytes.Equal(n.Fields[i].Name, n.Fields[j].Name) && m.sameDefer(n.Fields[i], n.Fields[j]) {
 					m.mergeValues(n.Fields[i], n.Fields[j])
 					n.Fields = append(n.Fields[:j], n.Fields[j+1:]...)
 					if i > j {
@@ -104,7 +105,7 @@ func (m *mergeFields) traverseNode(node resolve.Node) {
 					}
 					if bytes.Equal(n.Fields[i].Name, n.Fields[j].Name) {
 						// we don't merge scalars with different onTypeNames to preserve the order of the fields
-						if !m.canMergeScalars(n.Fields[i], n.Fields[j]) {
+						if !m.canMergeScalars(n.Fields[i], n.Fields[j]) || !m.sameDefer(n.Fields[i], n.Fields[j]) {
 							continue
 						}
 						m.mergeScalars(n.Fields[i], n.Fields[j])
@@ -201,6 +202,9 @@ func (m *mergeFields) fieldsCanMerge(left *resolve.Field, right *resolve.Field) 
 	if left.Value.NodeKind() != right.Value.NodeKind() {
 		return false
 	}
+	if !m.sameDefer(left, right) {
+		return false
+	}
 	if !m.sameOnTypeNames(left.OnTypeNames, right.OnTypeNames) {
 		return false
 	}
@@ -210,6 +214,17 @@ func (m *mergeFields) fieldsCanMerge(left *resolve.Field, right *resolve.Field) 
 		return false
 	}
 	return true
+}
+
+// sameDefer reports whether both fields are delivered with the same payload: the initial
+// response (no defer) or the same defer id. Fields delivered with different payloads must
+// stay separate: nothing below a deferred field is rendered in the initial response, so
+// merging a non-deferred field into a deferred one would drop its selections.
+func (m *mergeFields) sameDefer(left, right *resolve.Field) bool {
+	if left.Defer == nil || right.Defer == nil {
+		return left.Defer == nil && right.Defer == nil
+	}
+	return left.Defer.DeferID == right.Defer.DeferID
 }
 
 func (m *mergeFields) deduplicateOnTypeNames(onTypeNames [][]byte) [][]byte {
